@@ -40,6 +40,22 @@ EntropyIsLog2(f, N, tol) ==
   ELSE IF N = One THEN IsFin(f) /\ f.m = 0
   ELSE /\ IsFin(f) /\ f.neg = 0 /\ f.m > 0 /\ f.e >= -K
        /\ WithinUlps(f.m, f.e, Log2LoX(N), Log2Hi(N), tol)
+\* E is log2(N) ROUNDED ONCE to float32: within 0.501 ulp (513/1024) of the bracket of the exact logarithm.  The library computes
+\* the value in float64 (error below 1e-8 ulp of the float32 result) and converts once; a value rounded to float32 at an intermediate
+\* step and again at the end is up to 1.5 ulp off.
+EntropyIsLog2Once(f, N) ==
+  IF N = <<>> THEN f.k = "ninf"
+  ELSE IF N = One THEN IsFin(f) /\ f.m = 0
+  ELSE /\ IsFin(f) /\ f.neg = 0 /\ f.m > 0 /\ f.e >= -K
+       /\ WithinUlpsFine(f.m, f.e, Log2LoX(N), Log2Hi(N), 513)
+\* both at once (one bracket): 0 = rounded once, 1 = within tol ulps only, 2 = neither
+EntropyClass(f, N, tol) ==
+  IF N = <<>> THEN (IF f.k = "ninf" THEN 0 ELSE 2)
+  ELSE IF N = One THEN (IF IsFin(f) /\ f.m = 0 THEN 0 ELSE 2)
+  ELSE IF ~(IsFin(f) /\ f.neg = 0 /\ f.m > 0 /\ f.e >= -K) THEN 2
+  ELSE LET lo == Log2LoX(N)
+           hi == Log2Hi(N)
+       IN IF WithinUlpsFine(f.m, f.e, lo, hi, 513) THEN 0 ELSE IF WithinUlps(f.m, f.e, lo, hi, tol) THEN 1 ELSE 2
 \* E <= log2(N) + tol ulps  (E does not overstate the true min-entropy log2 N)
 EntropyNotAbove(f, N, tol) ==
   \/ f.k = "ninf"
